@@ -225,6 +225,31 @@ func registerVerif() {
 		m.yield(th)
 		return nil
 	}
+	// verifQuiesce blocks the caller until no other thread can make progress
+	intrinsics["verifQuiesce"] = func(m *Machine, th *Thread, fn *ssa.Function, a []Value, site ssa.Instruction) Value {
+		quiet := func() bool {
+			for _, t := range m.threads {
+				if t != th && m.enabled(t) {
+					return false
+				}
+			}
+			return true
+		}
+		for !quiet() {
+			th.blocked = quiet
+			th.what = "verifQuiesce"
+			var cand []*Thread
+			for _, t := range m.threads {
+				if t != th && m.enabled(t) {
+					cand = append(cand, t)
+				}
+			}
+			k := m.chooseEnum(len(cand))
+			m.switchTo(th, cand[k])
+		}
+		th.blocked = nil
+		return nil
+	}
 	intrinsics["verifUFBool"] = func(m *Machine, th *Thread, fn *ssa.Function, a []Value, site ssa.Instruction) Value {
 		return m.uf(m.strArg(a[0]), BoolSort, m.variadic(a[1]))
 	}
